@@ -116,7 +116,7 @@ class Scenario:
         self.viol = []
         self.descr = []
         self.encrypted = self.rng.random() < 0.75
-        self.dep = Deployment(wd, self.rng.choice([1, 2, 4]), (wd / 'cache') if self.rng.random() < 0.3 else None)
+        self.dep = Deployment(wd, self.rng.choice([1, 2, 4]), (wd / 'cache') if self.rng.random() < 0.45 else None)
         self.users = []
         self.snaps = {}            # name -> dict(owner, fam, uid, files, table, chunk_paths, path)
         self.orphans = {}          # chunk path -> (fam, digest) expected leftovers of killed snapshots
